@@ -1,7 +1,7 @@
 CONSTANTS
   HashMode = "real"
   Bug = "none"
-  Sweeps = {"near", "deepq", "hier", "xtwin", "xdeep", "self", "forms"}
+  Sweeps = {"near", "deepq", "hier", "xtwin", "xdeep", "self", "forms", "heap", "heapd"}
   PairDepth = 2
   NearDepth = 2
   DeepDepth = 2
@@ -9,6 +9,7 @@ CONSTANTS
   XDepth = 1
   SelfDepth = 2
   FormDepth = 2
+  HeapDepth = 3
   Wide = FALSE
   EmitCases = TRUE
 INIT Init
